@@ -227,6 +227,30 @@ fn run_in(case: &C14Case, nu: &mut Nu) -> Result<CaseInfo, Fail> {
         return Err(bad(format!("the recorder handler stopped by itself: {:?}", u.meta)));
     }
 
+    // the threshold of a replay that was still running when the live frames arrived comes
+    // after them: give its invocation time to come out (bounded) before judging
+    let mut all = all;
+    if !tail {
+        let deadline = std::time::Instant::now() + Duration::from_secs(10);
+        loop {
+            let mut found = false;
+            for o in all.iter().filter(|w| w.topic == "h.out" && meta_of(w, "handler_id").as_deref() == Some(&reg.id)) {
+                if let Some(h) = &o.hash {
+                    let c = nu.content(h)?;
+                    if String::from_utf8_lossy(&c).contains("\"topic\":\"xs.threshold\"") {
+                        found = true;
+                        break;
+                    }
+                }
+            }
+            if found || std::time::Instant::now() > deadline {
+                break;
+            }
+            std::thread::sleep(Duration::from_millis(5));
+            all = nu.frames()?;
+        }
+    }
+
     // ---- expectation ---------------------------------------------------------------------
     let own = |w: &WFrame| meta_of(w, "handler_id").as_deref() == Some(&reg.id);
     let reg_traffic_before = |w: &WFrame| (w.topic == "h.register" || w.topic == "h.unregister") && w.id128() <= reg.id128();
